@@ -244,9 +244,14 @@ class Engine(HeapMixin, ExprMixin, AccessMixin, CallMixin, StmtMixin):
     for r in spec.entry_assume:
       st.assume(self.spec_bool(st, cx, r))
     conc = self.conc_of(cx)
-    if conc is not None:
-      for e in conc.get('invariant', ()):
-        st.assume(self.spec_bool(st, cx, e))
+    inv_in = list(conc.get('invariant', ())) if conc is not None else []
+    for gname in spec.guar:
+      for e in (self.reg.concurrency.get(gname) or {}).get('invariant', ()):
+        if e not in inv_in:
+          inv_in.append(e)
+    for e in inv_in:
+      st.assume(self.spec_bool(st, cx, e))
+    if conc is not None or spec.guar:
       st.labels['seg'] = entry
     # cover check: the precondition must be satisfiable.  Models of quantified formulas are
     # expensive to find, so: refute-or-model the quantifier-free part, then try the full
@@ -320,7 +325,7 @@ class Engine(HeapMixin, ExprMixin, AccessMixin, CallMixin, StmtMixin):
     for g in spec.ghost:
       if (spec.name, g.get('after', g.get('before')).strip()) not in self.ghost_hits:
         raise Unsupported('ghost anchor %r not found in %s (source drift)' % (g.get('after', g.get('before')), name))
-    if res.exit_reached == 0:
+    if res.exit_reached == 0 and not spec.no_exit:
       raise Unsupported('vacuous: no feasible path reaches an exit of %s' % name)
 
   def _lexical_class(self, spec):
@@ -397,10 +402,17 @@ class Engine(HeapMixin, ExprMixin, AccessMixin, CallMixin, StmtMixin):
 
   def segment_end(self, st, cx, node, what):
     """Obligations at the end of an atomic segment (yield or exit)."""
-    conc = self.conc_of(cx)
-    if conc is None:
+    spec = cx.spec
+    if spec is None or not spec.guar:
       return
     line = getattr(node, 'lineno', '?')
+    conc = {'invariant': [], 'guarantee': []}
+    for gname in spec.guar:
+      c = self.reg.concurrency.get(gname)
+      if c is None:
+        raise Unsupported('unknown CONCURRENCY entry %s' % gname)
+      conc['invariant'] += list(c.get('invariant', ()))
+      conc['guarantee'] += list(c.get('guarantee', ()))
     for i, e in enumerate(conc.get('invariant', ())):
       self.oblige(st, 'conc-inv[%s:%s#%d]@%s' % (cx.qual, what, i, line), self.spec_bool(st, cx, e), node,
                   'shared-state invariant %r holds when the segment ends (%s)' % (e, what))
